@@ -97,6 +97,20 @@ def expected(E, combo, tty):
     return v
 
 
+# (name, lines before filter_chain, lines after it).  With error logging on, a passing call may add separate error records; a dropped
+# call must stay silent all the same.  Unparsable lines elsewhere in the file do not switch filtering off (every good line applies).
+SURROUNDINGS = [
+    ('errlog_overflow', b'error_logging = yes\nlog_message_max_length = 255\nmessage_format = ' + b'L' * 300 + b'\n', b''),
+    ('errlog_raising_format', b'error_logging = yes\nmessage_format = %{nosuchds}%{failure}M%{\n', b''),
+    ('junk_line_before', b'message_format = M\nthis line has no separator\n', b''),
+    ('junk_line_after', b'message_format = M\n', b'this line has no separator\n'),
+    ('unterminated_section_after', b'message_format = M\n', b'[unterminated\n'),
+    ('overlong_comment_after', b'message_format = M\n', b'# ' + b'c' * 1100 + b'\n'),
+    ('overlong_comment_before', b'# ' + b'c' * 1100 + b'\nmessage_format = M\n', b''),
+    ('other_section_after', b'message_format = M\n', b'[other]\nfilter_chain = noop\n'),
+]
+
+
 def run_state(args):
     h, uid, stdin, tier, w = args
     tty = stdin == 'pty'
@@ -107,9 +121,18 @@ def run_state(args):
         lines.append('errno 34')       # the caller's ambient errno (ERANGE) must not influence any filter decision
     if uid != 0:
         lines.append('setresuid %d 0 0' % uid)   # real uid differs from effective: filters must use the REAL uid
-    for combo, st, text in ch:
-        cfg = b'[snoopy]\nmessage_format = M\noutput = file:log\nfilter_chain=' + text + b'\n'
+    # the same chains inside other configuration surroundings: the decision and the silence of a drop must not depend on them
+    short = [c for c in ch if c[1] == 'plain' and len(c[0]) <= 2]
+    for sname, pre, post in SURROUNDINGS:
+        ch = ch + [(combo, 'in:' + sname, text, pre, post) for combo, st, text in short]
+    for c in ch:
+        combo, st, text = c[:3]
+        if len(c) == 5:
+            cfg = b'[snoopy]\n' + c[3] + b'output = file:log\nfilter_chain=' + text + b'\n' + c[4]
+        else:
+            cfg = b'[snoopy]\nmessage_format = M\noutput = file:log\nfilter_chain=' + text + b'\n'
         lines += ['resetsinks', 'cfg ' + H.hx(cfg), 'call execve %s [h61] [] -1 13' % H.hx(b'/x')]
+    ch = [c[:3] for c in ch]
     r = H.run_script(h, w, '\n'.join(lines), env_extra={'VERIF_HEXMAX': '64'}, timeout=900)
     return r, E, ch, tty
 
@@ -131,7 +154,8 @@ def run(ck):
         single = {}
         for (combo, st, text), j in zip(ch, calls):
             evals += 1
-            logged = H.sink_is(j['at_entry']['log'], b'M\n')
+            loose = st.startswith('in:errlog')        # error records may accompany the record of a PASSING call
+            logged = H.sink_is(j['at_entry']['log'], b'M\n') if not loose else j['at_entry']['log']['len'] > 0
             untouched = all(j['after'][s]['len'] == 0 for s in SINKS)
             want = expected(E, combo, tty)
             bad = []
@@ -141,13 +165,13 @@ def run(ck):
                 bad.append('decision=%s_expected=%s' % ('log' if logged else 'drop', 'log' if want else 'drop'))
             if not logged and not untouched:
                 bad.append('drop_not_silent')
-            if logged and not (H.sink_is(j['after']['log'], b'M\n') and all(j['after'][s]['len'] == 0 for s in SINKS if s != 'log')):
+            if logged and not loose and not (H.sink_is(j['after']['log'], b'M\n') and all(j['after'][s]['len'] == 0 for s in SINKS if s != 'log')):
                 bad.append('extra_output')
             if j['rec_calls'] != 1 or j['ret'] != -1 or j['errno'] != 13:
                 bad.append('exec_passthrough')
-            outcomes.add((tag, combo if len(combo) <= 3 else st, logged))
+            outcomes.add((tag, combo if len(combo) <= 3 else st, st if st.startswith('in:') else '', logged))
             if bad:
-                ck.violation('C07:%s:%s:chain=%s' % ('+'.join(bad), tag, text[:90].decode()), {'state': tag, 'chain': text.decode(), 'elements': list(combo) if len(combo) < 8 else st, 'failed': bad})
+                ck.violation('C07:%s:%s%s:chain=%s' % ('+'.join(bad), tag, (':' + st) if st.startswith('in:') else '', text[:90].decode()), {'state': tag, 'chain': text.decode(), 'elements': list(combo) if len(combo) < 8 else st, 'failed': bad})
             if len(samples) < 5 and evals % 2003 == 7:
                 samples.append({'state': tag, 'chain': text[:100].decode(), 'logged': logged})
     ck.coverage(states=len(outcomes), transitions=evals, traces_validated_against_impl=evals, evaluations=evals, distinct_nontrivial=len(outcomes),
